@@ -60,7 +60,11 @@ def run_scripted(case):
             out['init'] = 'ValueError'; return out          # extra_init_cmd met the continuation prompt after its last line
         for cmd in case['cmds']:
             seps = cmd.get('seps') or ['\n'] * (cmd['lines'] - 1)
-            text = 'line0' + ''.join(sep + 'line%d' % (k + 1) for k, sep in enumerate(seps))
+            # an empty line inside a block is a line like any other: it is sent, and answered by a prompt
+            names = ['' if k == cmd.get('empty_at') else 'line%d' % k for k in range(cmd['lines'])]
+            if cmd.get('empty_at') is not None:
+                seps = ['\n'] * (cmd['lines'] - 1)       # (a CR before an empty line and an LF after it would read as one CRLF)
+            text = names[0] + ''.join(sep + names[k + 1] for k, sep in enumerate(seps))
             s0 = len(child.sent)
             k0 = len(child.kills)
             w0 = len(child.waits)
@@ -82,7 +86,7 @@ def run_scripted(case):
                 if child.waits[w0:] != want_waits:
                     out['results'][-1] = list(out['results'][-1][:2]) + ['waited with timeouts %r, the caller gave %r' % (child.waits[w0:], tw)]
             # one sendline per line of the command, whatever line separator the caller used
-            want_sent = ['line%d\n' % k for k in range(cmd['lines'])]
+            want_sent = [nm + '\n' for nm in names]
             if out['results'][-1][0] == 'value' and child.sent[s0:] != want_sent:
                 out['results'][-1] = ['value', out['results'][-1][1], 'sent %r' % (child.sent[s0:],)]
         out['pending'] = child.before if out['results'] and out['results'][-1][0] in ('TIMEOUT',) else child.buffer
@@ -191,6 +195,7 @@ def rand_case(rng, clean=True):
         incomplete = rng.random() < 0.2
         segs = [mk(rng.random() < 0.8) for _ in range(lines - 1)] + [mk(incomplete)]
         cmds.append(dict(lines=lines, segs=segs, sync=(mk(False) if incomplete else None), timeout=rng.choice([5, 5, -1, None, 0.5]),
+                         **({'empty_at': rng.randrange(1, lines - 1)} if lines >= 3 and rng.random() < 0.5 else {}),
                          seps=[rng.choice(['\n', '\n', '\r\n', '\r', '\x0c', '\u2028']) for _ in range(lines - 1)]))
     case = dict(prompt=prompt, cont=cont, init=mk(False), cmds=cmds)
     if rng.random() < 0.25:
@@ -225,6 +230,7 @@ def bash_family(rng, k):
         ('echo cr%s\r' % word, 'cr%s\r\n' % word),                      # str.splitlines(): a bare CR ends a line
         ('echo a%s\recho b%s' % (word, word), 'a%s\r\nb%s\r\n' % (word, word)),
         ('echo %s\necho second\nprintf third' % word, '%s\r\nsecond\r\nthird' % word),      # every line answers with output of its own
+        ('cat <<EOF\none%s\n\ntwo\nEOF' % word, 'one%s\r\n\r\ntwo\r\n' % word),                # an empty line inside a block is part of the command
     ]
     return rng.choice(fam)
 
@@ -242,6 +248,7 @@ def py_family(rng, k):
         ('%d + 1' % k, '%d\r\n' % (k + 1)),
         ("print('cr%s')\r" % word, 'cr%s\r\n' % word),
         ("print('%s')\nprint('second')" % word, '%s\r\nsecond\r\n' % word),
+        ('def f%d():\n    return 41\n\nprint(f%d() + 1)' % (k, k), '42\r\n'),                     # the empty line ends the block
     ]
     return rng.choice(fam)
 
